@@ -117,9 +117,16 @@ def _grid_event(grid):
     try:
         s = Strop("\n".join("".join(str(v) for v in row) for row in grid))
         ev["is"] = int(bool(s.is_strop))
-        insts = [[[int(q.rows.low), int(q.rows.high), int(q.columns.low), int(q.columns.high)] for q in i.rectangles()]
-                 for i in s.instances()]
-        ev["insts"] = sorted(insts)
+        def look(i):
+            return [[int(q.rows.low), int(q.rows.high), int(q.columns.low), int(q.columns.high)] for q in i.rectangles()]
+        ev["insts"] = sorted(look(i) for i in s.instances())
+        # every instance is looked at again: after str(instance), and rectangles() a third time
+        again = []
+        for i in s.instances():
+            str(i)
+            again.append(look(i))
+        ev["insts2"] = sorted(again)
+        ev["insts3"] = sorted(look(i) for i in s.instances())
     except Exception as e:      # every non-empty matrix of equal-length 0/1 rows is inside the quantifier
         ev["exc"] = f"{type(e).__name__}: {e}"
     return ev
@@ -146,9 +153,17 @@ def _poly_events(case):
         for vi, (orient, start, idx) in enumerate(variants):
             verts = [[xs[ix], yl[iy]] for ix, iy in idx]
             # thorough: both containers for every outline; quick: alternating
-            for container in (("points", "numpy") if case["both_containers"] else (("points", "numpy")[vi % 2],)):
+            containers = ("points", "numpy") if case["both_containers"] else (("points", "numpy")[vi % 2],)
+            if en == "int":          # integer coordinates: also as integer-dtype arrays
+                containers = containers + (("int64", "int32")[vi % 2],) if not case["both_containers"] else containers + ("int64", "int32")
+            for container in containers:
                 fl = [(emb.coord(x), emb.coord(y)) for x, y in verts]
-                arg = [Point(x, y) for x, y in fl] if container == "points" else np.array(fl, dtype=float)
+                if container == "points":
+                    arg = [Point(x, y) for x, y in fl]
+                elif container == "numpy":
+                    arg = np.array(fl, dtype=float)
+                else:
+                    arg = np.array(fl, dtype=np.int64 if container == "int64" else np.int32)
                 ev = {"verts": verts}
                 try:
                     res = strop_decomposition(arg)
@@ -166,11 +181,12 @@ def _poly_events(case):
                 else:
                     try:
                         ev["rects"] = [emb.back_rect(*r) for r in res]
-                        key = json.dumps(res)
+                        key = repr(res)
                         if key not in loaded_cache:
-                            area = sum(r[2] * r[3] for r in res)
-                            doc = "Modules:\n  M:\n    area: %r\n    rectangles: [%s]\nNets: []\n" % (
-                                area, ", ".join("[" + ", ".join(repr(v) for v in r) + "]" for r in res))
+                            # the rectangles go to Netlist AS RETURNED (a tree, as floor_set_manager hands them on), not
+                            # through their string form
+                            doc = {"Modules": {"M": {"area": float(sum(float(r[2]) * float(r[3]) for r in res)), "rectangles": res}},
+                                   "Nets": []}
                             Rectangle.undefine_epsilon()
                             try:
                                 m = Netlist(doc).get_module("M")
